@@ -27,6 +27,7 @@ class Injector:
         self.mode = 'line'
         self.codes = []
         self.sites = set()
+        self.trace = None
         mon.use_tool_id(TOOL, 'rv-sched')
         mon.register_callback(TOOL, mon.events.LINE, self._line)
         mon.register_callback(TOOL, mon.events.INSTRUCTION, self._instr)
@@ -56,6 +57,8 @@ class Injector:
         if self.inside:
             return
         self.count += 1
+        if self.trace is not None:
+            self.trace.append((code.co_filename, code.co_name, lineno))
         if self.count == self.target:
             self._fire(code, lineno)
 
@@ -106,6 +109,15 @@ class Injector:
             else:
                 for c in self.codes:
                     mon.set_local_events(TOOL, c, 0)
+
+    def trace_of(self, A):
+        """list of (file, function, line) for every LINE event of A"""
+        self.trace = []
+        try:
+            self.run(A, lambda: None, -1, 'line')
+            return self.trace
+        finally:
+            self.trace = None
 
     def events_in(self, A, mode='line'):
         self.run(A, lambda: None, -1, mode)
